@@ -231,7 +231,7 @@ def all_work(chunk):
     return t
 
 
-CONFIGURED = {"checking": ["9001", "9002"], "savings": ["9101"], "creditcard": ["9401"], "investment": ["9501"]}
+CONFIGURED = {"checking": ["9001", "90 02"], "savings": ["9101"], "creditcard": ["94 01 X"], "investment": ["9501"]}  # ids may hold blanks
 
 
 def cfg_all_work(chunk):
@@ -250,12 +250,18 @@ def cfg_all_work(chunk):
         for cmd, seq in chunk:
             userfile = config.USERCONFIGDIR / "ofxget.cfg"
             userfile.parent.mkdir(parents=True, exist_ok=True)
-            userfile.write_text("[mybank]\nurl = " + URL + "\nuser = jdoe\nbankid = 999999999\nbrokerid = old.broker\nchecking = 9001, 9002\nsavings = 9101\ncreditcard = 9401\ninvestment = 9501\n")
+            home = len(seq) % 3 == 1  # every third run: the nickname is configured through an OFX Home id instead of a URL
+            userfile.write_text("[mybank]\n" + ("ofxhome = 1003" if home else "url = " + URL) + "\nuser = jdoe\nbankid = 999999999\nbrokerid = old.broker\n"
+                                + "".join(f"{ty} = {', '.join(ids)}\n" for ty, ids in CONFIGURED.items()))
             og = importlib.reload(ofxget())
             infos = [acctinfo_term(i, *e) for i, e in enumerate(seq)]
             got = []
 
             def handler(ex):
+                if ex.url.startswith("http://www.ofxhome.com/"):
+                    xml = f'<institution id="1003"><name>N</name><fid></fid><org></org><url>{URL}</url><brokerid>home.broker</brokerid><ofxfail>0</ofxfail><sslfail>0</sslfail>' \
+                          "<lastofxvalidation>2019-04-29 22:01:02</lastofxvalidation><lastsslvalidation>2019-04-29 22:01:02</lastsslvalidation></institution>"
+                    return 200, [("Content-Type", "text/xml")], xml.encode()
                 rq = F.read_request(ex.body)
                 got.append((rq, ex))
                 if rq["kind"] == "accounts":
@@ -263,6 +269,19 @@ def cfg_all_work(chunk):
                 return F.ok(F.generic_response("statements", rq["trnuids"]))
 
             net.handler = handler
+            # first, without --all: the configured accounts exactly as the file lists them
+            t.count("evaluations")
+            try:
+                out = run_cli([cmd, "mybank", "--dryrun"])
+                cfg_accounts = [(ty, a) for ty in TYPES for a in CONFIGURED.get(ty, []) if cmd == "stmt" or ty != "investment"]
+                exp0 = expected_request(cmd, cfg_accounts, (None, None, None), {}, "jdoe", "{:0<32}".format("anonymous"), bankid="999999999", brokerid="old.broker")
+                t0 = c06.now_ms()
+                if compare_request(t, f"C19|{cmd}|configured-accounts|dryrun", {"part": "cfg-all", "cmd": cmd, "seq": [list(x) for x in seq], "step": "dryrun"},
+                                   out.strip().encode("utf_8") if not out.startswith("OFXHEADER") else out.encode("utf_8").rstrip(b"\n"), exp0, t0 - 60000, t0 + 1000):
+                    t.outcome("cfg-dry-ok")
+            except Exception as e:
+                t.fail(f"C19|{cmd}|configured-accounts|dryrun|raises-{type(e).__name__}", {"part": "cfg-all", "cmd": cmd, "seq": [list(x) for x in seq], "step": "dryrun"}, f"{type(e).__name__}: {str(e)[:150]}")
+            got.clear()
             argv = [cmd, "mybank", "--password", "pw", "--all", "--skipprofile"] + (["-v", "-v"] if len(seq) % 2 == 0 else [])
             active = [(e[0], e[2] if len(e) > 2 else f"{e[0][:2]}{i}") for i, e in enumerate(seq) if e[1] == "ACTIVE" and (cmd == "stmt" or e[0] != "investment")]
             case = {"part": "cfg-all", "cmd": cmd, "seq": [list(x) for x in seq]}
@@ -391,7 +410,7 @@ def run(ctx):
         "each date option alone x 4 notations, all 27 combinations of 3 date texts over (-s,-e,-a), every non-empty subset of the 4 include flags (with and without dates, and with -v -v = logging at DEBUG); printed request read by the "
         "reference reader and compared with the expected request; B: `stmt --all` / `stmtend --all` against the scripted server for every account sequence of length <=2 over 6 types x 3 statuses"
         + (", every ACTIVE-only sequence of length 3 and a seed-chosen quarter of the length-3 multisets" if ctx.quick else " and every sequence of length 3 (5832)") +
-        "; + the same for a nickname whose configuration already lists (other) accounts, bank id and broker id, over all orderings of one ACTIVE account per type with inactive ones in between; the statement "
+        "; + (configured account ids holding blanks, requested as listed without --all; every third nickname configured through an OFX Home id) the same for a nickname whose configuration already lists (other) accounts, bank id and broker id, over all orderings of one ACTIVE account per type with inactive ones in between; the statement "
         "request received must ask exactly the ACTIVE accounts; every run is a distinct command line / response",
         "dry_runs": tally.counts.get("dry-runs", 0),
         "all_runs": tally.counts.get("all-runs", 0),
